@@ -102,16 +102,28 @@ def ensure_driver():
 
 
 def prune_cache(keep):
+    """Best effort and never fatal: concurrent checks prune at the same time, so an entry may vanish between the
+    directory listing and the stat (this raced once and surfaced as a CHECKER-ERROR of whichever check ran first)."""
     try:
         ents = [e for e in os.listdir(CACHE) if len(e) == 20 and os.path.isdir(os.path.join(CACHE, e))]
-    except FileNotFoundError:
+    except OSError:
         return
-    ents.sort(key=lambda e: os.path.getmtime(os.path.join(CACHE, e)), reverse=True)
-    now = time.time()
-    for e in ents[3:]:
-        # never prune an entry another (concurrent) check may still be using
-        if e != keep and now - os.path.getmtime(os.path.join(CACHE, e)) > 1800:
-            shutil.rmtree(os.path.join(CACHE, e), ignore_errors=True)
+
+    def mtime(e):
+        try:
+            return os.path.getmtime(os.path.join(CACHE, e))
+        except OSError:
+            return 0.0
+    try:
+        ents.sort(key=mtime, reverse=True)
+        now = time.time()
+        for e in ents[3:]:
+            # never prune an entry another (concurrent) check may still be using
+            m = mtime(e)
+            if e != keep and m and now - m > 1800:
+                shutil.rmtree(os.path.join(CACHE, e), ignore_errors=True)
+    except OSError:
+        pass
 
 
 class BuildError(Exception):
